@@ -150,8 +150,10 @@ type Server struct {
 	DefaultCollation string
 	Version          string
 
-	closed int32
-	wg     sync.WaitGroup
+	closed  int32
+	refuse  int32 // non-zero: accepted sockets are closed before the greeting
+	refused uint32
+	wg      sync.WaitGroup
 }
 
 var globalSeq int64
@@ -239,6 +241,19 @@ func (s *Server) ResetEvents() {
 	s.mu.Unlock()
 }
 
+// RefuseConnections makes the server close every newly accepted socket before sending the greeting (true) or
+// serve new connections normally again (false). Established connections are not affected.
+func (s *Server) RefuseConnections(on bool) {
+	v := int32(0)
+	if on {
+		v = 1
+	}
+	atomic.StoreInt32(&s.refuse, v)
+}
+
+// Refused returns how many connection attempts were turned away by RefuseConnections.
+func (s *Server) Refused() uint32 { return atomic.LoadUint32(&s.refused) }
+
 // Accepted returns how many connections the server has accepted so far; connection ids are 1..Accepted() in
 // accept order. Unlike the "connect" event (logged by the connection's goroutine after the handshake) the counter
 // is bumped before the handshake starts, i.e. before the dialling side can have seen the greeting.
@@ -293,6 +308,12 @@ func (s *Server) acceptLoop() {
 		nc, err := s.ln.Accept()
 		if err != nil {
 			return
+		}
+		if atomic.LoadInt32(&s.refuse) != 0 {
+			// "this server cannot give a connection right now": the dialling side sees EOF instead of a greeting
+			atomic.AddUint32(&s.refused, 1)
+			nc.Close()
+			continue
 		}
 		s.mu.Lock()
 		s.nextID++
